@@ -17,6 +17,7 @@ that are filled through public add-methods (LaneletNetwork, Scenario), content p
 import enum
 import inspect
 import math
+import warnings
 
 import numpy as np
 from hypothesis import reject
@@ -42,6 +43,9 @@ from crverif.core import HarnessError, canon
 from crverif.gen import geometry as G
 from crverif.gen.values import TWO_PI, angle, coord
 from crverif.oracle import geom
+
+# the text of a strategy is only used by Hypothesis for an internal event label; building it is a one-off cost
+warnings.filterwarnings("ignore", message="Generating overly large repr")
 
 D = {"$d": 1}
 ID_POOL = [0, 8, 16, 32, 64, 1, 2, 3, 5, 24, 40, 128]      # 0/8/16/... collide in small hash tables
